@@ -27,6 +27,13 @@ pub fn install_panic_hook() {
             "<non-string panic>".to_string()
         };
         let text = format!("{} @ {}", msg, loc);
+        if msg.starts_with("unsafe precondition(s) violated") || msg.contains("panic in a function that cannot unwind") {
+            // A panic that cannot unwind (std's unsafe-precondition checks: `get_unchecked` out of range,
+            // `unwrap_unchecked` on None, ...) aborts the process as soon as this hook returns. In the release build the
+            // same execution is undefined behaviour. That is a verdict about the subject, not a machinery failure: say
+            // so, leave a replay artefact with the case this thread was working on, and end the check.
+            abort_verdict(&text);
+        }
         LAST_PANIC.with(|p| *p.borrow_mut() = Some(text.clone()));
         // panics on threads the harness does not own (engine search/timer threads) are collected here
         if let Ok(mut g) = FOREIGN_PANICS.lock() {
@@ -35,6 +42,51 @@ pub fn install_panic_hook() {
             }
         }
     }));
+}
+
+/// the property being checked by this process and whether it is a worker (set once by main)
+pub static RUN_INFO: std::sync::OnceLock<(String, bool)> = std::sync::OnceLock::new();
+
+thread_local! {
+    /// the case the current thread is working on, for the artefact of a verdict that cannot be delivered by unwinding
+    static CASE_POS: std::cell::Cell<Option<crate::refchess::Pos>> = const { std::cell::Cell::new(None) };
+    static CASE_TEXT: RefCell<String> = const { RefCell::new(String::new()) };
+}
+
+pub fn note_case_pos(p: &crate::refchess::Pos) {
+    CASE_POS.with(|c| c.set(Some(*p)));
+}
+
+pub fn note_case_text(t: &str) {
+    CASE_TEXT.with(|c| {
+        let mut c = c.borrow_mut();
+        c.clear();
+        c.push_str(t);
+    });
+}
+
+fn abort_verdict(text: &str) -> ! {
+    use std::io::Write;
+    let (prop, worker) = RUN_INFO.get().cloned().unwrap_or(("C15".to_string(), false));
+    let pos = CASE_POS.with(|c| c.get()).map(|p| p.fen6(false)).unwrap_or_default();
+    let case = CASE_TEXT.with(|c| c.try_borrow().map(|c| c.clone()).unwrap_or_default());
+    let what = format!("the engine violated the precondition of an unchecked operation (undefined behaviour in the release build): {}; state being visited: [{}]; case: [{}]", text, pos, case);
+    let dir = format!("{}/replays", crate::report::verif_dir());
+    let _ = std::fs::create_dir_all(&dir);
+    let path = format!("{}/{}-abort-{}.json", dir, prop, std::process::id());
+    let j = crate::json::obj(vec![("property", crate::json::s(prop.clone())), ("key", crate::json::s(format!("abort|{}", text))), ("what", crate::json::s(what.clone())), ("replay", crate::json::obj(vec![("kind", crate::json::s("abort")), ("fen", crate::json::s(pos)), ("case", crate::json::s(case))]))]);
+    let _ = std::fs::write(&path, j.to_string());
+    let so = std::io::stdout();
+    let mut so = so.lock();
+    if worker {
+        let _ = writeln!(so, "ABORT-VERDICT {}\t{}", path, what);
+    } else {
+        let _ = writeln!(so, "VIOLATION property={} replay={}", prop, path);
+        let _ = writeln!(so, "  what: {}", what);
+        let _ = writeln!(so, "FAIL {} : the check ended at this verdict (the process cannot continue after a non-unwinding panic)", prop);
+    }
+    let _ = so.flush();
+    std::process::exit(1)
 }
 
 pub static FOREIGN_PANICS: std::sync::Mutex<Vec<(String, String)>> = std::sync::Mutex::new(Vec::new());
